@@ -97,3 +97,39 @@ def parse_dump(lines):
             d = core.kvs(l)
             rows[int(l.split(" ", 2)[1])] = d
     return rows
+
+# --- prior row states ---------------------------------------------------------------------------
+# A frame under test is applied to rows with different pasts, not only to a row a DF11 has just created:
+# what a frame does to a row must not depend on what the row saw before (C05-C07, C09, C10).
+PRIORS = ["df11lo", "df11hi", "surface", "airpos", "ident", "velocity", "df4", "df5", "tc28", "tc31",
+          "df20first", "surface+df11hi", "ident+df11hi", "airpos+velocity"]
+
+def prior_frames(rng, addr, kind):
+    """frames that give the row of `addr` one of several pasts (first element creates the row)"""
+    out = []
+    for part in kind.split("+"):
+        if part == "df11lo":
+            out.append(F.df11(rng.randrange(4), addr, 0))
+        elif part == "df11hi":
+            out.append(F.df11(4 + rng.randrange(4), addr, 0))
+        elif part == "surface":
+            out.append(rand_frame(rng, "tc%d" % rng.randrange(5, 9), addr))
+        elif part == "airpos":
+            out.append(rand_frame(rng, "tc%d" % rng.randrange(9, 19), addr))
+        elif part == "ident":
+            out.append(rand_frame(rng, "tc%d" % rng.randrange(1, 5), addr))
+        elif part == "velocity":
+            out.append(rand_frame(rng, "tc19.%d" % rng.randrange(1, 3), addr))
+        elif part == "df4":
+            out.append(rand_frame(rng, "df4", addr))
+        elif part == "df5":
+            out.append(rand_frame(rng, "df5", addr))
+        elif part == "tc28":
+            out.append(rand_frame(rng, "tc28", addr))
+        elif part == "tc31":
+            out.append(rand_frame(rng, "tc31", addr))
+        elif part == "df20first":
+            out.append(rand_frame(rng, "df20", addr))
+        else:
+            raise ValueError(part)
+    return out
